@@ -250,11 +250,108 @@ def run(ctx):
                               builder="props.c11.builder")
     engine_check.scenario_run(ctx, "props.c11.wrapped_builder", MONITORS, lambda j, o: True, RULE, 12, 200, 9,
                               "plain_wrapped_plain_part", seed_base=850000)
+    real_crypto_part(ctx)
     session_part(ctx)
     # M17: connections one after the other on one store, byte for byte against the composed model, and the
     # fresh-server probe at the connection level
     import e2e_hook
     e2e_hook.run(ctx, ["c11"])
+
+
+def real_crypto_case(seed):
+    """ONE server with the REAL cryptography engine: keys of several algorithms; requests that the backend refuses
+    (algorithm / mode pairs it does not support, bad parameters) interleaved with ordinary ones; every ordinary request
+    is also sent to a fresh server on a copy of the database: what a refused request left in the living process must
+    not decide the next one."""
+    import copy
+    import random
+    import impl_engine
+    r = random.Random(seed)
+    E = impl_engine.ImplEngine(scripted_crypto=False)
+    fails = []
+    n = 0
+
+    def line(items, user="alice", v=14):
+        return {"cmd": "req", "now": 1000, "id": {"user": user, "groups": None},
+                "req": {"version": v, "ts": None, "async": None, "bopt": None, "maxsize": None, "items": items}}
+
+    def attr(nm, v):
+        return {"name": nm, "index": None, "value": v}
+    try:
+        keys = {}
+        for alg, nbytes in ((3, 16), (2, 24), (17, 16), (16, 16), (18, 16)):      # AES 3DES Camellia Blowfish CAST5
+            val = bytes(r.randrange(256) for _ in range(nbytes))
+            o = E.handle(line([{"op": "register", "bid": None, "crypto": None, "otype": 2,
+                                "tmpl": {"tnames": 0, "attrs": [attr("Cryptographic Usage Mask", {"k": "int", "v": 12})]},
+                                "obj": {"otype": 2, "value": val.hex(), "alg": alg, "len": nbytes * 8, "format": 1, "subtype": None}}]))
+            try:
+                u = o["results"][0]["data"]["uid"]
+            except Exception:
+                continue
+            E.handle(line([{"op": "activate", "bid": None, "crypto": None, "uid": u}]))
+            keys[alg] = u
+        bs = {3: 16, 2: 8, 17: 16, 16: 8, 18: 8}
+
+        def enc(alg, mode, pad, ivlen=None, op="encrypt", taglen=None):
+            return {"op": op, "bid": None, "crypto": None, "uid": keys[alg], "params": True,
+                    "cp": {"mode": mode, "padding": pad, "alg": alg, "taglen": taglen},
+                    "data_hex": "11" * 32, "iv_hex": "22" * (ivlen if ivlen is not None else bs[alg])}
+
+        def create(alg, bits):
+            return {"op": "create", "bid": None, "crypto": None, "otype": 2, "tmpl": {"tnames": 0, "attrs": [
+                attr("Cryptographic Algorithm", {"k": "enum", "v": alg}), attr("Cryptographic Length", {"k": "int", "v": bits}),
+                attr("Cryptographic Usage Mask", {"k": "int", "v": 12})]}}
+        for _ in range(10):
+            alg = r.choice(sorted(keys))
+            odd = r.choice([enc(alg, 6, None), enc(alg, 9, None, ivlen=12, taglen=16), enc(alg, 13, None), enc(alg, 1, 1),
+                            enc(alg, 1, 3, ivlen=3), enc(alg, 2, None), enc(alg, 6, None, op="decrypt")])
+            E.handle(line([odd], user=r.choice(["alice", "mallory"])))
+            for probe in (enc(alg, 1, 3), create(alg, bs[alg] * 16 if alg != 2 else 192), enc(alg, 1, 3, op="decrypt")):
+                E.engine._data_store.dispose()
+                cp_path = E.db + ".probe"
+                shutil.copyfile(E.db, cp_path)
+                live = E.handle(line([copy.deepcopy(probe)]))
+                F = impl_engine.ImplEngine(scripted_crypto=False)
+                try:
+                    shutil.copyfile(cp_path, F.db)
+                    F.restart()
+                    fresh = F.handle(line([copy.deepcopy(probe)]))
+                finally:
+                    F.close()
+                    os.remove(cp_path)
+                n += 1
+
+                def view(o):
+                    rs = (o or {}).get("results") or [{}]
+                    x = rs[0]
+                    d = x.get("data") or {}
+                    return (x.get("status"), x.get("reason"), d.get("c") if probe["op"] != "create" else None)
+                if view(live) != view(fresh):
+                    fails.append(("c11:living-server-differs-from-fresh:%s" % probe["op"],
+                                  "after the request %s the living server answers %s of algorithm %d with %s, a fresh server "
+                                  "on the same database with %s" % ({k: odd[k] for k in ("op", "cp")}, probe["op"], alg,
+                                                                   view(live)[:2], view(fresh)[:2])))
+                    break
+            if fails:
+                break
+    finally:
+        E.close()
+    return fails, n
+
+
+def real_crypto_part(ctx):
+    import multiprocessing
+    k = 8 if ctx.tier == "quick" else 120
+    seeds = [ctx.seed * 3571 + 2200 + i for i in range(k)]
+    with multiprocessing.get_context("fork").Pool(8) as pool:
+        res = pool.map(real_crypto_case, seeds)
+    tot = 0
+    for sd, (fails, n) in zip(seeds, res):
+        tot += n
+        for sig, what in fails:
+            ctx.report(sig, what, {"kind": "real-crypto", "seed": sd})
+    ctx.coverage["real_backend_probes"] = tot
+    ctx.coverage["evaluations"] = ctx.coverage.get("evaluations", 0) + tot
 
 
 def search(ctx, broken):
@@ -267,6 +364,11 @@ def replay(ctx, rep):
     if r.get("kind") == "server-e2e":
         import e2e_hook
         return e2e_hook.replay(ctx, rep)
+    if r.get("kind") == "real-crypto":
+        fails, _n = real_crypto_case(r["seed"])
+        for sig, what in fails:
+            print("  %s: %s" % (sig, what))
+        return not fails
     if r.get("kind") == "session-probe":
         import impl_session as S
         import props.c12 as c12
